@@ -756,6 +756,26 @@ pub(crate) fn explode_withdrawals(
     Ok(res)
 }
 
+/// Explodes one UPDATE into its announced and its withdrawn routes.
+///
+/// RFC 4271 section 4.3: "An UPDATE message SHOULD NOT include the same
+/// address prefix in the WITHDRAWN ROUTES and Network Layer Reachability
+/// Information fields. However, a BGP speaker MUST be able to process UPDATE
+/// messages in this form. A BGP speaker SHOULD treat an UPDATE message of
+/// this form as though the WITHDRAWN ROUTES do not contain the address
+/// prefix." Callers emit the announcements first and the withdrawals second,
+/// so a withdrawal of an NLRI that the same message announces is dropped
+/// here, otherwise it would undo the announcement.
+pub(crate) fn explode_update(
+    bgp_update: &UpdateMessage<impl routecore::Octets>,
+) -> Result<(Vec<RotondaRoute>, Vec<RotondaRoute>), routecore::bgp::ParseError>
+{
+    let reach = explode_announcements(bgp_update)?;
+    let mut unreach = explode_withdrawals(bgp_update)?;
+    unreach.retain(|w| !reach.iter().any(|a| a.same_nlri(w)));
+    Ok((reach, unreach))
+}
+
 //------------ Temporary types -----------------------------------------------
 
 // PeerId was part of the old roto, but used throughout the BMP state machine.
